@@ -23,18 +23,8 @@ def wakeup_paths(chk, m, K, Kconst):
         pid = "get_next_wakeup " + "->".join(b.lstrip("%") for b in p.blocks)
         r = strip_casts(p.ret)
         facts = {"atomic": None, "runq": None, "timerq": None}
-        for k, e, truth in fib.cond_truth_of_call(p, "list_empty"):
-            q = K.queue_arg(e.args[0])
-            if q in facts:
-                facts[q] = truth
-        for k, e, truth in fib.cond_truth_of_call(p, "messageq_empty"):
-            if K.queue_arg(e.args[0]) == "atomic_runq":
-                facts["atomic"] = truth
-        for c, taken, inst in p.conds:
-            cc = strip_casts(c)
-            for q in ("runq", "timerq"):
-                if cc[0] == "icmp" and cc[2][0] == "ld" and cc[2][1] == K.kptr(q) and cc[3] == ("null",):
-                    facts[q] = (cc[1] == "eq") == bool(taken)
+        for q, (truth, k) in fib.queue_empty_facts(p, K).items():
+            facts[q] = truth
         is_now = r[0] == "ld" and r[1] == K.kptr("now")
         is_unbounded = r[0] == "b" and r[1] == "add" and strip_casts(r[3])[0] == "ld" and strip_casts(r[3])[1] == K.kptr("now") and r[4][0] == "c"
         is_head = r[0] == "ld" and ptr_parts(r[1])[1] in (K.fibre["duetime"][0] - K.link_off, K.fibre["duetime"][0])
